@@ -614,6 +614,9 @@ func (s *shard[K, V]) evictMain(
 		return false
 	}
 
+	if verifEnabled && in != nil && in != v {
+		verifEv(verifEvAdmit, p.owner, verifB(p.shouldAdmit(in, v, tie)), 0, nil)
+	}
 	if in != nil && in != v && !p.shouldAdmit(in, v, tie) {
 		p.controller.cycleRejects++
 		return s.dropSieveItem(in, stats, RemovedRejected)
@@ -669,6 +672,9 @@ func (s *shard[K, V]) enforceSieveCapacity(
 				!loopish &&
 				(p.controller.cycleMainEvicts == 0 ||
 					p.controller.resurrectionRate() < probationResurrectLow)
+			if verifEnabled {
+				verifEv(verifEvKeep, p.owner, verifB(shouldKeep), 0, nil)
+			}
 
 			if shouldKeep {
 				// probation (the recency window) is below target on an unweighted,
@@ -1042,6 +1048,9 @@ func (p *sieveTinyLFU[K, V]) setProbationCap(n int64) {
 	n = min(max(n, p.minProbationCap), p.maxProbationCap)
 	p.probationCap = n
 	p.mainCap = p.capacity - n
+	if verifEnabled {
+		verifEv(verifEvAdapt, p.owner, n, 0, nil)
+	}
 }
 
 // forceEvictSieveItem is the final capacity repair path. It removes the
